@@ -36,7 +36,7 @@ def run_one(modname, spec, tmp, idx, timeout):
     try:
         p = subprocess.run(
             [PY, "-m", "vlib.shard", modname, specfile, outfile],
-            cwd=ROOT, env=shard_env(), timeout=timeout,
+            cwd=ROOT, env=dict(shard_env(), TMPDIR=tmp), timeout=timeout,  # scratch of a killed shard goes with the run's directory
             stdout=subprocess.PIPE, stderr=subprocess.STDOUT,
         )
         tail = p.stdout.decode("utf8", "replace")[-3000:]
